@@ -6,7 +6,7 @@
    lists, other fields kept; events_in_range c = c's events lie in c's own range; wf_span c = from <= to < 2^64 and
    fewer than 2^63 blocks; fits size max c = max = 0 \/ size c <= max (0 = no limit). *)
 From Coq Require Import NArith ZArith List Bool String.
-From Verif Require Import Model.CertCut Proofs.CertCutProofs Gen.SourceFacts.
+From Verif Require Import Model.CertCut Proofs.CertCutProofs Gen.SourceFacts Gen.GenBlockRange Proofs.GenAgreeBlockRange.
 Import ListNotations.
 Open Scope N_scope.
 
@@ -205,6 +205,22 @@ Proof.
   unfold U64. repeat split; try reflexivity; try (vm_compute; congruence); intros [H1 H2]; vm_compute in H1, H2; congruence.
 Qed.
 
+(* ---- the translated Go code ----
+   Gen/GenBlockRange.v is GENERATED from aggsender/types/block_range.go by tools/go2coq on every run. Its functions are
+   the model's functions for all uint64 field values, so the gap theorems above are theorems about the translated code. *)
+Theorem C17_generated_gap_is_model : forall b o, wf_gen b -> wf_gen o ->
+  to_br (BlockRange_Gap b o) = gap (to_br b) (to_br o).
+Proof. exact Gap_agree. Qed.
+Theorem C17_generated_count_is_model : forall b, BlockRange_CountBlocks b = count_blocks (to_br b).
+Proof. exact CountBlocks_agree. Qed.
+Theorem C17_generated_gap_empty_iff_touching : forall b o, wf_range (to_br b) -> wf_range (to_br o) ->
+  (BlockRange_IsEmpty (BlockRange_Gap b o) = true <-> touching (to_br b) (to_br o)).
+Proof. exact Gen_gap_empty_iff_touching. Qed.
+Example C17_generated_nonvacuous :
+  BlockRange_Gap (mkBlockRange 0 0) (mkBlockRange (U64 - 1) (U64 - 1)) = mkBlockRange 1 (U64 - 2) /\
+  BlockRange_Gap (mkBlockRange 0 5) (mkBlockRange 6 (U64 - 1)) = mkBlockRange 0 0.
+Proof. split; vm_compute; reflexivity. Qed.
+
 (* Print Assumptions walks the whole dependency cone each time (0.8 s per call here); the theorems are therefore
    grouped in four tuples, the assumptions of a tuple being the union of the assumptions of its components *)
 Definition C17_all_range := (C17_range_is_filter, C17_range_strict_is_filter, C17_range_cases).
@@ -218,3 +234,5 @@ Print Assumptions C17_all_range.
 Print Assumptions C17_all_limit.
 Print Assumptions C17_all_adapt.
 Print Assumptions C17_all_gap.
+Print Assumptions C17_generated_gap_is_model.
+Print Assumptions C17_generated_gap_empty_iff_touching.
